@@ -154,6 +154,8 @@ struct Run {
   int eff_tries = 3, eff_timeout_ms = 2000, eff_maxtimeout_ms = 0, max_active = 0, eff_ndots = 1, eff_rotate = 0;
   struct ListEv { int64_t t; int kind; uint32_t seq; };      // kind 0 same list, 1 changed list, 2 reinit
   std::vector<ListEv> srv_list_events;
+  struct ActiveEv { uint32_t seq; std::vector<int> list; };
+  std::vector<ActiveEv> active_hist;                        // configured server list (indices, configuration order) over time
   int pick_kind(int64_t a) const;
   void read_effective();
   void set_servers_variant(int variant);
